@@ -939,6 +939,9 @@ package kafka
 //@   ensures old(r.readerStack.count) > 0 ==> err == nil && r.lengthRemain == old(r.lengthRemain) && r.readerStack.count == old(r.readerStack.count) && r.readerStack.remain == old(r.readerStack.remain)
 //@   ensures err == nil && old(r.readerStack.count) <= 0 && r.readerStack.header.magic == 2 ==> r.readerStack.count == int(r.readerStack.header.v2.count) && r.lengthRemain == int(r.readerStack.header.length) - 49
 //@   ensures err == nil ==> r.readerStack.count != 0
+// a format-0 message is stored without a timestamp: whatever was read before, its header carries timestamp 0 (C02: records
+// are delivered with the stored millisecond timestamp; nothing of the previous message's header leaks into the next)
+//@   ensures err == nil && old(r.readerStack.count) <= 0 && r.readerStack.header.magic == 0 ==> r.readerStack.header.v1.timestamp == 0
 
 // readMessageV2 (record batches).  C17: whatever happens - success, a cut stream, a failing decompressor - the bytes taken from
 // the reader of the stack in use at entry equal the budget charged to that stack, so the enclosing frame can still be drained.
